@@ -922,6 +922,16 @@ def check_case(case):
                     show(through), "an exception naming the missing attribute")
         return None
     attrs = {p: getattr(lay, p) for p in layer_params(d) if hasattr(lay, p)}
+    # the optional properties the documentation lists reach the formula whenever the formula has such a parameter and the layer carries
+    # the attribute - whatever the decorator's declaration says today
+    import inspect
+    try:
+        sig = set(inspect.signature(orig).parameters)
+    except (TypeError, ValueError):
+        sig = set()
+    for p_ in DOCUMENTED_OPTIONAL:
+        if p_ in sig and p_ not in attrs and hasattr(lay, p_):
+            attrs[p_] = getattr(lay, p_)
     kw = dict(extra)
     kw.update(attrs)                                   # the layer's values override the caller's
     if pos:
@@ -950,6 +960,37 @@ def check_case(case):
         except Exception:  # noqa
             return None
     return ("error-differs", "one of the two calls fails, the other returns a value", show(through), show(direct))
+
+
+DOCUMENTED_OPTIONAL = ["inclusion_shape", "mixing_ratio", "brine_inclusion_shape", "brine_mixing_ratio", "ice_permittivity_model",
+                       "brine_permittivity_model", "water_permittivity_model", "depol_xyz", "length_ratio"]
+
+
+def check_update_sequence(seed):
+    """a layer evaluated, then changed through its documented update() / attribute assignment, then evaluated again: the second value is
+    that of a layer built with the new parameters (what the layer returns is a function of its current attributes)"""
+    from smrt import make_snow_layer
+    rng = np.random.default_rng(seed)
+    f = float(rng.choice([1.4e9, 10.65e9, 19e9, 37e9]))
+    dens = r3(rng, 200, 450)
+    mk = lambda **kw: make_snow_layer(1.0, "homogeneous", density=dens, temperature=273.15, **kw)
+    vlw = r3(rng, 0.01, 0.08)
+    for what, change, fresh in (("update(volumetric_liquid_water)", lambda l: l.update(volumetric_liquid_water=vlw), lambda: mk(volumetric_liquid_water=vlw)),
+                                ("update(density) of wet snow", None, None)):
+        if change is None:
+            lay = mk(volumetric_liquid_water=vlw); d2 = r3(rng, 200, 450)
+            change = lambda l: l.update(density=d2)
+            fresh = lambda: make_snow_layer(1.0, "homogeneous", density=d2, temperature=273.15, volumetric_liquid_water=vlw)
+        else:
+            lay = mk()
+        before = [complex(lay.permittivity(i, f)) for i in (0, 1)]
+        change(lay)
+        got = [complex(lay.permittivity(i, f)) for i in (0, 1)]
+        want = [complex(fresh().permittivity(i, f)) for i in (0, 1)]
+        if not all(abs(a - b) <= 1e-12 * abs(b) for a, b in zip(got, want)):
+            return ("layer:stale-after-update", f"snow layer (density {dens}) evaluated at {f:g} Hz, then {what}, then evaluated again: {got} but a "
+                    f"layer built with the new parameters gives {want}", str(got), str(want))
+    return None
 
 
 def finding_of(case, r):
@@ -1004,6 +1045,26 @@ def oracle(ctx, hints, effort):
             run(case)
     for case in witness_cases():
         run(case)
+    for _ in range(3 if effort == "routine" else 20):
+        evals += 1
+        sd = int(rng.integers(0, 2**31))
+        try:
+            r = check_update_sequence(sd)
+        except Exception:  # noqa
+            r = None
+        if r is not None:
+            findings.append(Finding(r[0], r[1], {"kind": "update-sequence", "seed": sd}, r[2], r[3]))
+    # layers carrying a list of inclusion shapes together with a mixing ratio (the documented way to mix shapes), through every path
+    for name, d in t["decls"].items():
+        if d["fn"] is None or "inclusion_shape" not in d["params"] or "mixing_ratio" not in d["params"]:
+            continue
+        for _ in range(2 if effort == "routine" else 10):
+            spec = dict(ctor="make_snow_layer", args=dict(layer_thickness=1.0, microstructure_model="homogeneous", density=r3(rng, 150, 500),
+                                                          temperature=265.0, inclusion_shape={"$tuple": ["spheres", "random_needles"]},
+                                                          mixing_ratio=r3(rng, 0.1, 0.9)))
+            extra = {p: {"$complex": [r3(rng, 1, 80), r3(rng, 0, 30)]} for p in ("e0", "eps") if p in d["params"]}
+            run(dict(fn=name, path="inj", layer=spec, frequency=10e9, extra=extra))
+            run(dict(fn=name, path="eff", layer=spec, frequency=10e9, extra=extra))
     nlay = 1 if effort == "routine" else 6
     for name, d in t["decls"].items():
         if d["fn"] is None:
@@ -1047,5 +1108,8 @@ def oracle(ctx, hints, effort):
 
 def replay(inp, rp=None):
     C.import_smrt()
+    if inp.get("kind") == "update-sequence":
+        r = check_update_sequence(inp["seed"])
+        return None if r is None else Finding(r[0], r[1], inp, r[2], r[3])
     r = check_case(inp)
     return None if r is None else finding_of(inp, r)
